@@ -80,7 +80,10 @@ class Unpick:
 EXC_TYPES = [ValueError, KeyError, RuntimeError, ZeroDivisionError, CustomExc]
 # raised by the wrapped FUNCTION only (a source that raises StopIteration simply ends): inside the stream generator
 # PEP 479 turns a StopIteration that reaches the generator body into RuntimeError with the original as __cause__
-FUNC_EXC_TYPES = EXC_TYPES + [StopIteration]
+import multiprocessing as _mp_for_exc
+# … and multiprocessing.TimeoutError, which a function may raise itself (it waits on something with a time limit): it is the
+# function's failure like any other, not "result not ready yet"
+FUNC_EXC_TYPES = EXC_TYPES + [StopIteration, _mp_for_exc.TimeoutError]
 
 
 def make_exc(k, func=False):
@@ -190,6 +193,19 @@ def _inner_iter(i, items, kw):
 
 
 LOOKING = False
+INFOS = []          # every pipe_info() read-out with what it showed when it was taken: it must keep showing that
+
+
+def _info(P):
+    info = P.pipe_info()
+    INFOS.append((info, (info.processed, info.yielded, str(info))))
+    return info
+
+
+def infos_changed():
+    return sum(1 for info, was in INFOS if (info.processed, info.yielded, str(info)) != was)
+
+
 KEPT = []           # exceptions the consumer received, kept alive until the scenario is over
 
 
@@ -387,6 +403,8 @@ def controller(rfd, sems, sched, ctl_w):
                     armed = True          # the instrumented stream starts with the consumer's first next()
                 if tag == 'X' and armed:
                     pool_gone = True
+                if tag in ('C', 'R') and armed:
+                    pool_gone = True      # the consumer has ended the stream: what is still inside an element stays there (see below)
                 if tag == 'S' and armed and not pool_gone and sems is not None and i < len(sems):
                     started.append(i)
                 if tag == 'Z':
@@ -562,14 +580,14 @@ def run_case(case):
                         log('y')
                     else:
                         log('Y', vid)
-                    info = P.pipe_info()
+                    info = _info(P)
                     res['reads'].append(dict(kind='value', id=('n' if v is None else vid), draws=src.i,
                                              processed=info.processed, yielded=info.yielded, info_str=str(info),
                                              repr=(repr(v)[:80] if vid == UNKNOWN else None)))
                 except StopIteration:
                     log('E')
                     finished = True
-                    info = P.pipe_info()
+                    info = _info(P)
                     res['reads'].append(dict(kind='stop', draws=src.i, processed=info.processed, yielded=info.yielded,
                                              info_str=str(info)))
                 except CaseTimeout:
@@ -582,7 +600,7 @@ def run_case(case):
                     else:
                         log('R', eid)
                     finished = True
-                    info = P.pipe_info()
+                    info = _info(P)
                     res['reads'].append(dict(kind='raised', id=eid, exc=repr(e)[:200], draws=src.i, thrown=isinstance(act, list),
                                              processed=info.processed, yielded=info.yielded, info_str=str(info)))
             elif act == 'A':
@@ -608,14 +626,15 @@ def run_case(case):
                     raise CaseTimeout()
                 finished = True
             elif act == 'I':
-                info = P.pipe_info()
+                info = _info(P)
                 res['infos'].append(dict(processed=info.processed, yielded=info.yielded, s=str(info)))
             else:
                 raise ValueError(act)
         res['final_draws'] = src.i
         res['src_calls'] = src.calls
-        info = P.pipe_info()
+        info = _info(P)
         res['final_info'] = dict(processed=info.processed, yielded=info.yielded, s=str(info))
+        res['infos_changed_later'] = infos_changed()
         if finished:
             left, waited = wait_no_children((cpid,), 3.0)
             res['children_after'] = [(p, st) for p, st in left]
@@ -815,10 +834,20 @@ def observed_obs(res):
 # running many scenarios in parallel, each in its own runner process
 # ---------------------------------------------------------------------------
 
-def _runner(case):
-    sys.dont_write_bytecode = True
+def _warning_policy(case):
     import warnings
     warnings.filterwarnings('ignore')
+    if case.get('library_warnings_are_errors'):
+        # as under `python -W error` / pytest's filterwarnings=error (deprecation notices of the interpreter and of third
+        # parties stay silent: fork() in a threaded process, numpy's shape setter, …)
+        warnings.simplefilter('error')
+        for cat in (DeprecationWarning, PendingDeprecationWarning, ImportWarning):
+            warnings.filterwarnings('ignore', category=cat)
+
+
+def _runner(case):
+    sys.dont_write_bytecode = True
+    _warning_policy(case)
     try:
         return run_case(case)
     except Exception as e:  # noqa
@@ -1086,14 +1115,14 @@ def run_multi(case):
                     else:
                         vid = identify(v, kw)
                         log('Y', vid)
-                    info = P.pipe_info()
+                    info = _info(P)
                     res['reads'].append(dict(stream=s, kind='value', id=vid, draws=srcs[s].i, processed=info.processed,
                                              yielded=info.yielded, info_str=str(info)))
                     state[s] = 'open'
                 except StopIteration:
                     log('M', s)
                     log('E')
-                    info = P.pipe_info()
+                    info = _info(P)
                     res['reads'].append(dict(stream=s, kind='stop', draws=srcs[s].i, processed=info.processed, yielded=info.yielded))
                     state[s] = 'finished'
                 except CaseTimeout:
@@ -1103,7 +1132,7 @@ def run_multi(case):
                     log('M', s)
                     eid = identify_exc(e)
                     log('R', eid)
-                    info = P.pipe_info()
+                    info = _info(P)
                     res['reads'].append(dict(stream=s, kind='raised', id=eid, exc=repr(e)[:200], draws=srcs[s].i,
                                              processed=info.processed, yielded=info.yielded))
                     state[s] = 'finished'
@@ -1128,7 +1157,7 @@ def run_multi(case):
         left, waited = wait_no_children((cpid,), 3.0)
         res['children_after'] = [(p, stt) for p, stt in left]
         res['children_wait_s'] = round(waited, 3)
-        info = P.pipe_info()
+        info = _info(P)
         res['final_info'] = dict(processed=info.processed, yielded=info.yielded, s=str(info))
         res['final_draws'] = {s: srcs[s].i for s in srcs}
     except CaseTimeout:
@@ -1196,8 +1225,7 @@ def stream_events(events, s):
 
 def _runner_multi(case):
     sys.dont_write_bytecode = True
-    import warnings
-    warnings.filterwarnings('ignore')
+    _warning_policy(case)
     try:
         return run_multi(case)
     except Exception:  # noqa
@@ -1231,3 +1259,44 @@ def stage_events(events):
                 toks.append('%d:E' % cur)
             cur = None
     return toks
+
+
+# ---------------------------------------------------------------------------
+# start methods other than fork (nothing is inherited: workers import what they run)
+# ---------------------------------------------------------------------------
+
+def sm_func(x, **kw):
+    return ('sm', x, tuple(sorted(kw.items())))
+
+
+class _CountingIter:
+    def __init__(self, n):
+        self.n, self.i = n, 0
+
+    def __iter__(self):
+        return self
+
+    def __next__(self):
+        if self.i >= self.n:
+            raise StopIteration
+        self.i += 1
+        return self.i - 1
+
+
+def startmethod_probe(method, nworkers, extracache, kw, n):
+    """runs inside isolated(): the program has selected `method` as its multiprocessing start method"""
+    import multiprocessing as mp
+    mp.set_start_method(method, force=True)
+    from generatorpipeline import pipeline
+    P = pipeline(nworkers, extracache=extracache)(sm_func)
+    src = _CountingIter(n)
+    before = sorted(p for p, st in children())
+    stream = P(src, **kw)
+    time.sleep(0.4)                      # a pool that is created with the stream has shown up by now
+    early = sorted(p for p, st in children() if p not in before)
+    draws0 = src.i
+    first = next(stream, 'empty')
+    draws1 = src.i
+    rest = list(stream)
+    return dict(early_children=len(early), draws_before_first_next=draws0, draws_at_first_output=draws1,
+                outputs=([first] if first != 'empty' else []) + rest)
